@@ -414,3 +414,19 @@ func genOps(count int, r *lib.Rand, emit emitFn) {
 		emit(c)
 	}
 }
+
+// genWriteToFailingWriter: WriteTo into a writer that fails after wcap bytes, then resume by Read
+// or a second WriteTo, then Close (model comparison: per-op results, writer bytes, close counts).
+func genWriteToFailingWriter(emit emitFn) {
+	o0, o1 := sourceOptions(2, 0, 0), sourceOptions(2, 0, 1)
+	for _, a := range o0 {
+		for _, b := range o1 {
+			for wcap := 0; wcap <= 4; wcap++ {
+				emit(&Case{Kind: "multi", WCap: wcap, WClos: false, Srcs: []SrcSpec{a, b}, Mode: "ops", Ops: []string{"w", "c"}})
+				if wcap%2 == 0 {
+					emit(&Case{Kind: "multi", WCap: wcap, WClos: false, Srcs: []SrcSpec{a, b}, Mode: "ops", Ops: []string{"w", "r3", "w", "d2:", "c", "c"}})
+				}
+			}
+		}
+	}
+}
